@@ -238,15 +238,19 @@ Proof.
     intros k init c post b cur kk Hs Hcur Hk. destruct k as [|k]; [discriminate|]. rewrite supp_S in Hs.
     apply andb_prop in Hs. destruct Hs as [Hs Hb]. apply andb_prop in Hs. destruct Hs as [Hi Hp].
     rewrite rw_for_S. apply ok_err_bind; [eapply IH1; [exact Hb|apply ready_mk; reflexivity]|]. intros body _. cbv zeta.
-    rewrite (init_ok_hasYo _ Hi), (init_ok_hasYo _ Hp). cbn [negb andb].
-    destruct (mustNoYield body); [apply Htrivpush; assumption|]. cbn [andb].
+    rewrite (init_ok_hasYo _ Hp). cbn [negb]. rewrite !andb_true_r.
     assert (Hafter : forall c2, binvA c2 ->
-              ok_err (comb c2 (fun c3 => c4 <- pushReturn c3 (XFor (option_map CExp c) post (XDelay (TLit (bstmts body)))) KFor ;; kk c4))).
-    { intros c2 Hc2. apply comb_ok; [exact Hc2|]. intros c3 Hc3.
-      destruct (pushReturn_ok c3 (XFor (option_map CExp c) post (XDelay (TLit (bstmts body)))) KFor Hc3 eq_refl) as [c4 [-> Hb4]]. cbn [bind]. apply Hk. exact Hb4. }
+              ok_err (if mustNoYield body then comb c2 (fun c3 => c4 <- push c3 (SFor None c post b) KTrivial ;; kk c4)
+                      else comb c2 (fun c3 => c4 <- pushReturn c3 (XFor (option_map CExp c) post (XDelay (TLit (bstmts body)))) KFor ;; kk c4))).
+    { intros c2 Hc2. destruct (mustNoYield body); (apply comb_ok; [exact Hc2|]); intros c3 Hc3.
+      - destruct (push_ok c3 (SFor None c post b) KTrivial Hc3) as [c4 [-> [Hb4 _]]]. cbn [bind]. apply Hk. apply Hb4. reflexivity.
+      - destruct (pushReturn_ok c3 (XFor (option_map CExp c) post (XDelay (TLit (bstmts body)))) KFor Hc3 eq_refl) as [c4 [-> Hb4]]. cbn [bind]. apply Hk. exact Hb4. }
+    destruct (negb (hasYo init) && mustNoYield body); [apply Htrivpush; assumption|].
     destruct init as [i|]; [|apply Hafter; apply Hcur].
-    destruct i; try discriminate. destruct f as [|f']; [reflexivity|]. rewrite rw_stmt_S.
-    destruct (push_ok cur (SAtom a) KTrivial Hcur) as [c' [-> [Hb' _]]]. cbn [bind]. apply Hafter. apply Hb'. reflexivity.
+    destruct f as [|f']; [reflexivity|]. rewrite rw_stmt_S. destruct i; try discriminate.
+    + destruct (push_ok cur (SAtom a) KTrivial Hcur) as [c' [-> [Hb' _]]]. cbn [bind]. apply Hafter. apply Hb'. reflexivity.
+    + apply ok_err_bind; [apply Hafter; apply binvA_mk; reflexivity|]. intros fol _.
+      destruct (pushReturn_ok cur (XBind v (TLit (bstmts fol))) KYield Hcur eq_refl) as [c' [-> _]]. exact I.
   - (* rw_switch *)
     intros k init tag cases cur kk Hs Hcur Hk. destruct k as [|k]; [discriminate|]. rewrite supp_S in Hs.
     apply andb_prop in Hs. destruct Hs as [Hi Hc]. rewrite rw_switch_S.
@@ -255,15 +259,23 @@ Proof.
       cbn [forallb snd] in Hc. apply andb_prop in Hc. destruct Hc as [Hb Hr]. apply clause_ok_inv in Hb. destruct Hb as [Hb1 _].
       apply ok_err_bind; [eapply IH1; [exact Hb1|apply ready_mk; reflexivity]|]. intros cb _.
       apply ok_err_bind; [apply IHr; exact Hr|]. intros rr _. exact I. }
-    intros [cases' allTrivial] _. rewrite (init_ok_hasYo _ Hi). cbn [negb andb].
-    destruct allTrivial; [apply Htrivpush; assumption|].
-    assert (Hafter : forall c2, binvA c2 ->
+    intros [cases' allTrivial] _.
+    assert (Hcomb : forall c2, binvA c2 ->
               ok_err (comb c2 (fun c3 => c4 <- push c3 (SSwitch None tag cases') KSwitch ;; kk c4))).
     { intros c2 Hc2. apply comb_ok; [exact Hc2|]. intros c3 Hc3.
       destruct (push_ok c3 (SSwitch None tag cases') KSwitch Hc3) as [c4 [-> [Hb4 _]]]. cbn [bind]. apply Hk. apply Hb4. reflexivity. }
-    destruct init as [i|]; [|apply Hafter; apply Hcur].
-    destruct i; try discriminate. destruct f as [|f']; [reflexivity|]. rewrite rw_stmt_S.
-    destruct (push_ok cur (SAtom a) KTrivial Hcur) as [c' [-> [Hb' _]]]. cbn [bind]. apply Hafter. apply Hb'. reflexivity.
+    destruct init as [i|].
+    + destruct i; try discriminate.
+      * cbn [hasYo hasY]. change (hasY (SAtom a)) with false. cbn [negb andb].
+        destruct allTrivial; [apply Htrivpush; assumption|].
+        destruct f as [|f']; [reflexivity|]. rewrite rw_stmt_S.
+        destruct (push_ok cur (SAtom a) KTrivial Hcur) as [c' [-> [Hb' _]]]. cbn [bind]. apply Hcomb. apply Hb'. reflexivity.
+      * change (hasYo (Some (SYield v))) with true. cbn [negb andb].
+        destruct f as [|f']; [reflexivity|]. rewrite rw_stmt_S.
+        apply ok_err_bind.
+        { destruct allTrivial; [apply Htrivpush; [apply ready_mk; reflexivity|exact Hk]|apply Hcomb; apply binvA_mk; reflexivity]. }
+        intros fol _. destruct (pushReturn_ok cur (XBind v (TLit (bstmts fol))) KYield Hcur eq_refl) as [c' [-> _]]. exact I.
+    + cbn [hasYo negb andb]. destruct allTrivial; [apply Htrivpush; assumption|]. apply Hcomb. apply Hcur.
 Qed.
 
 Theorem rewrite_no_assert k body :
